@@ -162,6 +162,8 @@ func (t *TypeExpr) String() string {
 		return "[]" + t.Elem.String()
 	case "map":
 		return "map[" + t.Key.String() + "]" + t.Elem.String()
+	case "gomap":
+		return "gomap[" + t.Key.String() + "]" + t.Elem.String()
 	case "set":
 		return "set[" + t.Key.String() + "]"
 	case "iface":
@@ -377,6 +379,10 @@ func (p *parser) parseUnary() Expr {
 		p.next()
 		return &EUnary{"-", p.parseUnary()}
 	}
+	if p.isOp("*") {
+		p.next()
+		return &EUnary{"*", p.parseUnary()}
+	}
 	return p.parsePostfix()
 }
 
@@ -423,6 +429,14 @@ func (p *parser) parsePostfix() Expr {
 		case p.isOp("("):
 			p.next()
 			var args []Expr
+			if id, ok := x.(*EIdent); ok && id.Name == "typeis" {
+				a := p.parseExpr()
+				p.expectOp(",")
+				t := p.parseType()
+				p.expectOp(")")
+				x = &ECall{x, []Expr{a, &EStr{Val: t.String()}}}
+				continue
+			}
 			for !p.isOp(")") {
 				args = append(args, p.parseExpr())
 				if p.isOp(",") {
@@ -492,6 +506,12 @@ func (p *parser) parseType() *TypeExpr {
 		p.expectOp("]")
 		v := p.parseType()
 		return &TypeExpr{Kind: "map", Key: k, Elem: v}
+	case "gomap":
+		p.expectOp("[")
+		k := p.parseType()
+		p.expectOp("]")
+		v := p.parseType()
+		return &TypeExpr{Kind: "gomap", Key: k, Elem: v}
 	case "set":
 		p.expectOp("[")
 		k := p.parseType()
@@ -571,6 +591,7 @@ type FuncContract struct {
 	Requires []*Clause
 	Ensures  []*Clause
 	Invs     []*Clause
+	Marks    []*Clause
 	Modifies []string // declared frame (heap names / ghost vars); nil = computed
 	HasMod   bool
 	Trusted  bool // body not verified (listed)
@@ -600,7 +621,7 @@ func NewContractSet() *ContractSet {
 var clauseKeywords = map[string]bool{
 	"func": true, "interface": true, "extern": true, "ghost": true, "axiom": true, "lemma": true,
 	"props": true, "requires": true, "ensures": true, "loop": true, "modifies": true, "trusted": true,
-	"assumed": true, "pure": true, "nosafety": true, "opt": true, "package": true, "import": true, "inline": true,
+	"marks": true, "assumed": true, "pure": true, "nosafety": true, "opt": true, "package": true, "import": true, "inline": true,
 }
 
 // ParseContractText parses the //@ lines of one file. pkgPath is the package the
@@ -756,6 +777,14 @@ func (cs *ContractSet) ParseContractText(file string, pkgPath string, lines []st
 					return err
 				}
 				cur.Ensures = append(cur.Ensures, c)
+			case "marks":
+				// free postcondition: assumed by callers, not checked against the body. Only
+				// meaningful for uninterpreted marker predicates ("this value was returned by f(x, y)").
+				c, err := mkClause("marks", rest)
+				if err != nil {
+					return err
+				}
+				cur.Marks = append(cur.Marks, c)
 			case "loop":
 				nstr, r2 := splitFirst(rest)
 				n, err := strconv.Atoi(nstr)
